@@ -1696,6 +1696,34 @@ _ical_fini(struct ical_parser_s p[static 1U])
 
 /* sending is like printing but into a file descriptor of choice */
 static void
+send_text(const char *fld, const char *s)
+{
+/* write FLD:S with S escaped as TEXT (RFC 5545, 3.3.11), which is what
+ * the reader undoes */
+	fdwrite(fld, strlen(fld));
+	fdputc(':');
+	for (const char *sp = s; *sp; sp++) {
+		switch (*sp) {
+		case '\\':
+		case ';':
+		case ',':
+			fdputc('\\');
+			fdputc(*sp);
+			break;
+		case '\n':
+			fdputc('\\');
+			fdputc('n');
+			break;
+		default:
+			fdputc(*sp);
+			break;
+		}
+	}
+	fdputc('\n');
+	return;
+}
+
+static void
 send_task(int whither, echs_task_t t)
 {
 	static unsigned int auto_uid;
@@ -1746,10 +1774,10 @@ send_task(int whither, echs_task_t t)
 	}
 	}
 	if (t->cmd) {
-		fdprintf("SUMMARY:%s\n", t->cmd);
+		send_text("SUMMARY", t->cmd);
 	}
 	if (t->desc) {
-		fdprintf("DESCRIPTION:%s\n", t->desc);
+		send_text("DESCRIPTION", t->desc);
 	}
 	if (t->org) {
 		fdprintf("ORGANIZER:%s\n", t->org);
@@ -1760,13 +1788,13 @@ send_task(int whither, echs_task_t t)
 		}
 	}
 	if (t->in) {
-		fdprintf("X-ECHS-IFILE:%s\n", t->in);
+		send_text("X-ECHS-IFILE", t->in);
 	}
 	if (t->out) {
-		fdprintf("X-ECHS-OFILE:%s\n", t->out);
+		send_text("X-ECHS-OFILE", t->out);
 	}
 	if (t->err) {
-		fdprintf("X-ECHS-EFILE:%s\n", t->err);
+		send_text("X-ECHS-EFILE", t->err);
 	}
 	with (nummapstr_t u = t->run_as.u) {
 		const char *tmps;
@@ -1789,10 +1817,10 @@ send_task(int whither, echs_task_t t)
 		}
 	}
 	if (t->run_as.sh) {
-		fdprintf("X-ECHS-SHELL:%s\n", t->run_as.sh);
+		send_text("X-ECHS-SHELL", t->run_as.sh);
 	}
 	if (t->run_as.wd) {
-		fdprintf("LOCATION:%s\n", t->run_as.wd);
+		send_text("LOCATION", t->run_as.wd);
 	}
 	if (t->umsk <= 0777) {
 		fdprintf("X-ECHS-UMASK:0%o\n", t->umsk);
